@@ -458,6 +458,28 @@ func c15World(r *ev.Rec) {
 			if got := rec(); got != "" {
 				l.Violation("drift condition not cleared when the NodePool is restored", fmt.Sprintf("Drifted=%q after the requirement edit was reverted  [%s]", got, desc), nil)
 			}
+			// (2b) upgrade across a hash VERSION: NodePool and NodeClaim both still carry the previous version and the same
+			// old-scheme hash (nothing was edited). Whichever of the drift controller and the hash controller's migration
+			// runs first, no drift may be reported, before or after the migration.
+			for _, first := range []string{"drift-controller", "hash-controller"} {
+				must(w.Raw.Get(w.Ctx, clientKey("", "default"), cur))
+				cur.Annotations[v1.NodePoolHashVersionAnnotationKey], cur.Annotations[v1.NodePoolHashAnnotationKey] = "v-previous", "hash-under-the-previous-scheme"
+				w.EnvUpdate(cur)
+				old := w.GetNodeClaim(nc.Name)
+				old.Annotations[v1.NodePoolHashVersionAnnotationKey], old.Annotations[v1.NodePoolHashAnnotationKey] = "v-previous", "hash-under-the-previous-scheme"
+				w.EnvUpdate(old)
+				if first == "drift-controller" {
+					if got := rec(); got != "" {
+						l.Violation("static drift reported across a hash-version upgrade", fmt.Sprintf("NodePool and NodeClaim both carry the previous hash version with equal hashes, nothing was edited, yet Drifted=%q before the hash controller migrated them  [%s launch=%s]", got, desc, launch), map[string]any{"nodepool_requirement": req, "launch": launch})
+					}
+				}
+				must(w.Raw.Get(w.Ctx, clientKey("", "default"), cur))
+				_, _ = nodepoolhash.NewController(w.Client, w.CP).Reconcile(w.Ctx, cur)
+				if got := rec(); got != "" {
+					l.Violation("static drift reported across a hash-version upgrade", fmt.Sprintf("after the hash controller migrated NodePool and NodeClaim from the previous hash version (%s first; nothing was edited) Drifted=%q  [%s launch=%s]", first, got, desc, launch), map[string]any{"nodepool_requirement": req, "launch": launch})
+					// leave the condition behind so that the later steps see the real state
+				}
+			}
 			// (3) a hashed field changes and the real hash controller runs -> NodePoolDrifted
 			must(w.Raw.Get(w.Ctx, clientKey("", "default"), cur))
 			cur.Spec.Template.Labels["env"] = "dev"
@@ -486,7 +508,7 @@ func c15World(r *ev.Rec) {
 func init() {
 	register("C15", "exploration", func(r *ev.Rec) {
 		r.Rule = "(a) 3 base NodePool templates (full / minimal / zero-valued durations) x every single-field edit from a closed list: edits of template labels, annotations, taints, startupTaints, nodeClassRef.{group,kind,name}, terminationGracePeriod in {unset,0s,30s,1m}, expireAfter in {Never,0s,10m,1h} must change NodePool.Hash(); edits of budgets, requirements, limits, weight, consolidation settings, list/map order, metadata and status must not. " +
-			"(b) every satisfiable single-requirement NodePool on a custom / provider key x pods constraining that key: hash controller -> provisioner -> NodeClaim -> real lifecycle controller with EVERY permitted launch (up to 4/12) -> real nodeclaim.disruption controller: never Drifted when fresh (also 2h later, when created between a hashed template edit and the hash controller's next run, and when one of the NodeClaim writes between launch and initialization failed once and was retried — every position); RequirementsDrifted when the NodePool is edited to exclude the node's zone and cleared when restored; NodePoolDrifted after a hashed edit + real hash controller; not across hash versions. non-trivial = distinct (base, effective edit) / (pool requirement, pod, launch)"
+			"(b) every satisfiable single-requirement NodePool on a custom / provider key x pods constraining that key: hash controller -> provisioner -> NodeClaim -> real lifecycle controller with EVERY permitted launch (up to 4/12) -> real nodeclaim.disruption controller: never Drifted when fresh (also 2h later, when created between a hashed template edit and the hash controller's next run, and when one of the NodeClaim writes between launch and initialization failed once and was retried — every position); RequirementsDrifted when the NodePool is edited to exclude the node's zone and cleared when restored; never across an upgrade from a previous hash version (drift controller or the hash controller's migration first); NodePoolDrifted after a hashed edit + real hash controller; not across hash versions. non-trivial = distinct (base, effective edit) / (pool requirement, pod, launch)"
 		r.Assumptions = []string{"provider-side IsDrifted returns no drift", "NodePools no label value can satisfy are excluded from (b)"}
 		c15Hash(r)
 		c15World(r)
